@@ -152,6 +152,18 @@ def run(pid, tier):
         # ---- 2. exhaustive model checking (in the background)
         exh = []
 
+        # all TLC jobs of the thorough tier share one time budget (50 min): job k may use an equal share of what is left
+        njobs = len(EXH[tier][pid]) + len(LIVE[tier].get(pid, []))
+        tlc_t0 = time.time()
+        done_jobs = [0]
+
+        def share(default):
+            if tier == "quick":
+                return default
+            left = 3000 - (time.time() - tlc_t0)
+            done_jobs[0] += 1
+            return int(max(300, left / max(1, njobs - done_jobs[0] + 1)))
+
         def exhaustive():
             for i, cfg in enumerate(EXH[tier][pid]):
                 hs, mo, mi, n, ops, crash = cfg[:6]
@@ -161,7 +173,7 @@ def run(pid, tier):
                 with open(os.path.join(sd, "exh.cfg"), "w") as f:
                     f.write(P.proto_cfg(hs, mo, mi, n, ops, crash, readers=rd, readerops=rops))
                 r = C.tlc(sd, "StackProto", "exh.cfg", sc, workers=8 if tier == "quick" else 12,
-                          timeout=420 if tier == "quick" else 2400, heap="12g" if tier == "quick" else "24g")
+                          timeout=share(420), heap="12g" if tier == "quick" else "24g")
                 r["cfg"] = dict(handles=hs, maxops=mo, maxids=mi, initn=n, opkinds=ops, crash=crash, readers=list(rd), readerops=list(rops))
                 exh.append(r)
                 shutil.rmtree(sd, ignore_errors=True)
@@ -173,7 +185,7 @@ def run(pid, tier):
                 with open(os.path.join(sd, "live.cfg"), "w") as f:
                     f.write(P.proto_cfg(hs, mo, mi, n, ops, crash, readers=rd, readerops=rops, invariants=False, live=True))
                 r = C.tlc(sd, "StackProto", "live.cfg", sc, workers=4 if tier == "quick" else 12,
-                          timeout=420 if tier == "quick" else 1800, heap="8g" if tier == "quick" else "24g")
+                          timeout=share(420), heap="8g" if tier == "quick" else "24g")
                 r["cfg"] = dict(handles=hs, maxops=mo, maxids=mi, initn=n, opkinds=ops, crash=crash, readers=list(rd), readerops=list(rops), liveness="C10_EveryCallReturns under FairSpec")
                 r["live"] = True
                 exh.append(r)
